@@ -73,6 +73,8 @@ M = [
  ('simd4-mask-hi',  'convolution/u8x4/sse4.rs', 'let mask_hi = _mm_set_epi8(-1, 15, -1, 11,', 'let mask_hi = _mm_set_epi8(-1, 15, -1, 10,', ['C02']),
  ('simd4-clone',    'convolution/u8x4/sse4.rs', 'simd_utils::mm_load_and_clone_i16x2(&k[2..]);', 'simd_utils::mm_load_and_clone_i16x2(&k[1..]);', ['C02']),
  ('vert-unpack',    'convolution/vertical_u8/sse4.rs', 'let source = _mm_unpacklo_epi8(source1, source2);\n            let pix = _mm_unpacklo_epi8(source, _mm_setzero_si128());\n            sss0 =', 'let source = _mm_unpackhi_epi8(source1, source2);\n            let pix = _mm_unpacklo_epi8(source, _mm_setzero_si128());\n            sss0 =', ['C02']),
+ ('avx2-mask-sh2',  'convolution/u8x4/avx2.rs', '        11, 10, 9, 8, 11, 10, 9, 8, 11, 10, 9, 8, 11, 10, 9, 8,\n        3, 2, 1, 0, 3, 2, 1, 0, 3, 2, 1, 0, 3, 2, 1, 0,', '        11, 10, 9, 8, 11, 10, 9, 8, 11, 10, 9, 8, 11, 10, 9, 8,\n        7, 6, 5, 4, 3, 2, 1, 0, 3, 2, 1, 0, 3, 2, 1, 0,', ['C02']),
+ ('avx2-half-init', 'convolution/u8x4/avx2.rs', '_mm256_set1_epi32(1 << (PRECISION - 2));', '_mm256_set1_epi32(1 << (PRECISION - 1));', ['C02']),
  ('alpha-list',     'mul_div.rs', 'PixelType::U8x2\n', 'PixelType::U8x3\n', ['C06', 'C07']),
 ]
 
